@@ -1,8 +1,103 @@
 import CM.Lib.Wire
-/-! Driver handler for C08 (stub: not built yet). -/
-namespace CM.Drv.C08
-open CM.Wire
+import CM.Model.FileLockSim
+/-!
+Driver handler for C08.
 
-def handle (_args _impl : List String) : String := bad
+`sim <slack> <racy> <start> <f0> <actor>* <ext>* => <outcome>*` — one script of actors
+on ONE lock file (times: integer nanoseconds since the harness's epoch).
+
+    f0       none | empty | garbage | stamp:<created>:<updated>   the file found at <start>
+    actor    a:<t0>:<hold>:<cancelAt>:<h|c>[:<late>]   Lock at t0; Unlock `hold` after Lock returned;
+             the context is cancelled at cancelAt (`h`: that is only the experiment's horizon);
+             `late` > 0: a protocol-conforming holder (played by the harness) whose every
+             heartbeat runs `late` < H after it is due
+    ext      x:<at>:<content>                   a foreign dead process's lock file appears at <at>
+    outcome  acq@<T> | cancel@<T> | pending    per actor, in order
+
+The model output is what the scheduler `simulate` (running the LTS's own `step`) predicts;
+`*` for scripts flagged racy (several actors act at one instant: the outcome depends on the
+interleaving) — those are judged by the specification only. The specification `judge`
+checks mutual exclusion (all holders alive), recovery within the proved bound, prompt
+return on cancellation, and that expected acquisitions happen.
+-/
+namespace CM.Drv.C08
+open CM.Wire CM.FileLock
+
+def decContent : List String → Option Content
+  | ["empty"] => some .empty
+  | ["garbage"] => some .garbage
+  | ["stamp", c, u] => match c.toNat?, u.toNat? with
+    | some c, some u => some (.stamp c u)
+    | _, _ => none
+  | _ => none
+
+def decF0 (s : String) : Option (Option Content) :=
+  if s = "none" then some none else (decContent (s.splitOn ":")).map some
+
+def decActor (s : String) : Option Actor :=
+  match s.splitOn ":" with
+  | ["a", t0, hold, ca, fl] => match t0.toNat?, hold.toNat?, ca.toNat? with
+    | some t0, some hold, some ca => some { t0 := t0, hold := hold, cancelAt := ca, horizon := fl = "h" }
+    | _, _, _ => none
+  | ["a", t0, hold, ca, fl, late] => match t0.toNat?, hold.toNat?, ca.toNat?, late.toNat? with
+    | some t0, some hold, some ca, some late =>
+      some { t0 := t0, hold := hold, cancelAt := ca, horizon := fl = "h", late := late }
+    | _, _, _, _ => none
+  | _ => none
+
+def decExt (s : String) : Option Ext :=
+  match s.splitOn ":" with
+  | "x" :: at_ :: rest => match at_.toNat?, decContent rest with
+    | some t, some c => some { at_ := t, cont := c }
+    | _, _ => none
+  | _ => none
+
+def encOutcome : Outcome → String
+  | .pending => "pending"
+  | .acq t => "acq@" ++ toString t
+  | .cancel t => "cancel@" ++ toString t
+  | .err t => "err@" ++ toString t
+
+def decOutcome (s : String) : Option Outcome :=
+  if s = "pending" then some .pending
+  else match s.splitOn "@" with
+    | ["acq", t] => t.toNat?.map .acq
+    | ["cancel", t] => t.toNat?.map .cancel
+    | ["err", t] => t.toNat?.map .err
+    | _ => none
+
+def allSome {α : Type} (l : List (Option α)) : Option (List α) :=
+  l.foldr (fun x acc => match x, acc with
+    | some a, some r => some (a :: r)
+    | _, _ => none) (some [])
+
+def handle (args impl : List String) : String :=
+  match args with
+  | "sim" :: slack :: racy :: start :: f0 :: rest =>
+    let aToks := rest.filter (·.startsWith "a:")
+    let xToks := rest.filter (·.startsWith "x:")
+    match slack.toNat?, start.toNat?, decF0 f0, allSome (aToks.map decActor), allSome (xToks.map decExt) with
+    | some slack, some start, some f0, some as, some exts =>
+      if aToks.length + xToks.length ≠ rest.length then bad else
+      let c := codeParams
+      let (outs, fin) := simulate c start f0 as exts 2000000
+      let model := if racy = "1" ∨ !fin then "*" else String.intercalate " " (outs.map encOutcome)
+      let spec := if impl = [] then "-" else
+        match allSome (impl.map decOutcome) with
+        | some io => if io.length = as.length then judge c slack f0 as exts io else "bad-op"
+        | none => "bad-op"
+      let twoH := c.factor * c.H
+      let tag := (match f0 with
+          | none => "n" | some .empty => "e" | some .garbage => "g"
+          | some (.stamp cr u) => if stale c start cr u then "s" else "f") ++
+        toString as.length ++
+        (if as.any (fun a => !a.horizon) then "c" else "") ++
+        (if as.any (fun a => a.hold > twoH) then "L" else "") ++
+        (if as.any (fun a => a.hold > c.H ∧ a.hold ≤ twoH) then "M" else "") ++
+        (if as.any (fun a => a.late > 0) then "J" else "") ++
+        (if exts.isEmpty then "" else "x") ++ (if racy = "1" then "r" else "")
+      reply model spec tag
+    | _, _, _, _, _ => bad
+  | _ => bad
 
 end CM.Drv.C08
